@@ -75,7 +75,7 @@ fn run(c: &Case) -> Verdict {
 }
 
 fn enumerate(t: Tier, shard: usize, nshards: usize, f: &mut dyn FnMut(Case) -> bool) {
-    let max_n = t.pick(2, 3);
+    let max_n = t.pick(3, 3);
     let mut sc = ShardCounter::new(shard, nshards);
     for fam in [Fam::Dyn, Fam::Static] {
         for n in 0..=max_n {
@@ -102,7 +102,7 @@ fn enumerate(t: Tier, shard: usize, nshards: usize, f: &mut dyn FnMut(Case) -> b
 pub fn def() -> PropDef {
     PropDef {
         id: "C01",
-        rule: "cases = (family, a, b) with a from the table generator (uniform/wordwise/shared-word/sparse/symmetric/expression/constant classes, n in 0..=12 for LutN and 0..=14 for Lut) and b fresh or related to a (equal, complement, 1-2 bits or one word changed); every case runs all 4 NOT forms and all 8 forms of AND, OR, XOR and compares value(m) for every m with the definition. Non-trivial = a and b non-constant and b not in {a, !a}; distinct by (family, a, b). Exhaustive part: every ordered pair of functions of n <= 2 (quick) / n <= 3 (thorough), both families.",
+        rule: "cases = (family, a, b) with a from the table generator (uniform/wordwise/shared-word/sparse/symmetric/expression/constant classes, n in 0..=12 for LutN and 0..=14 for Lut) and b fresh or related to a (equal, complement, 1-2 bits or one word changed); every case runs all 4 NOT forms and all 8 forms of AND, OR, XOR and compares value(m) for every m with the definition. Non-trivial = a and b non-constant and b not in {a, !a}; distinct by (family, a, b). Exhaustive part: every ordered pair of functions of n <= 3, both families (both tiers).",
         assumptions: vec![
             "value() and from_blocks()/set_bit() are used to load and observe tables; a table that cannot be loaded and read back is skipped (label skipped:unloadable), not reported here",
             "bits above 2^n in blocks() are deliberately not inspected (that is C02)",
@@ -111,9 +111,9 @@ pub fn def() -> PropDef {
             name: "ops",
             rule: "see property rule",
             strategy,
-            cases: (24_000, 1_600_000),
+            cases: (160_000, 4_000_000),
             exhaustive: Some(enumerate),
-            exhaustive_note: "all ordered pairs (a,b) of functions of n<=2 (quick) / n<=3 (thorough), Lut and LutN, 28 forms each",
+            exhaustive_note: "all ordered pairs (a,b) of functions of n<=3, Lut and LutN, 28 forms each",
             run,
         })],
     }
